@@ -295,6 +295,16 @@ def gen_tree(rng, mode='plain'):
                 links[a + '/up'] = b
             k += 1
         return dirs, files, links
+    if mode == 'bigdir':
+        # one directory with far more entries than fit one directory-read block (8 KiB), sub-directories among them
+        dirs.append('shot')
+        files['shot'] = ['img.%04d.exr' % i for i in range(1, rng.randint(500, 900))]
+        for i in range(rng.randint(20, 40)):
+            p = 'shot/pass%02d' % i
+            dirs.append(p)
+            files[p] = ['beauty.%04d.exr' % k for k in range(1, 4)] + ['notes.txt']
+        files['.'] = ['top.txt']
+        return dirs, files, links
     if mode == 'narrow':
         # a spine: every level holds one leaf directory and one directory that goes deeper, so the
         # last outstanding unit of work of the walk is a directory that still has a sub-directory
@@ -475,6 +485,8 @@ def c17_special(pid, prop, tier, seed, b):
     runs = []
     for t in range(ntrees):
         mode = ['plain', 'narrow', 'leaflinks', 'nested', 'aliased', 'plain', 'chain'][t % 7]
+        if t % 35 == 33:
+            mode = 'bigdir'
         aliased = mode in ('aliased', 'nested')
         dirs, files, links = gen_tree(rng, mode)
         for _ in range(30):
@@ -493,6 +505,9 @@ def c17_special(pid, prop, tier, seed, b):
             if mode == 'chain':
                 flags = 'r' + flags.replace('r', '')
                 nargs = 0
+            if mode == 'bigdir':
+                flags = 'r' + flags.replace('r', '')
+                nargs = rng.choice([0, 0, 1])
             args = []
             for _ in range(nargs):
                 k = rng.random()
@@ -731,6 +746,10 @@ def c19_special(pid, prop, tier, seed, b):
             e = rng.choice(['.exr', '.jpg', '.tar.gz'])
             w = rng.choice([1, 3, 4, 5])
             vals = sorted(set(rng.randint(10 ** (w - 1) if w > 1 else 1, 10 ** w - 1) for _ in range(rng.randint(2, 6))))
+            if rng.random() < 0.25 and w <= 3:
+                # one printf width whose numbers outgrow it (%02d over 97..104): still uniformly padded
+                lo = 10 ** w - rng.randint(2, 6)
+                vals = list(range(lo, lo + rng.randint(5, 12)))
             if len(vals) < 2:
                 continue
             hid = '.' if rng.random() < 0.2 else ''
